@@ -67,7 +67,7 @@ var profC06 = Profile{
 
 func init() {
 	Register(&Check{ID: "C06", Level: "exploration",
-		Rule: "one case = one generated workflow with mixed CoresPerTask (1..max) and 1..6 slots under one schedule; the invariant 'sum of cores over tasks between command start and exit <= maxConcurrentTasks' is evaluated after EVERY simulator step (exact, not a lower bound). Some cases pre-place outputs so that skipped tasks interleave. Round 6: a second, smaller workflow with three one-core tasks counted against its own bound; FileSplitter feeding tasks that keep every slot busy. distinct = event-log hash; non-trivial = >=2 tasks executed and >=1 non-default choice",
+		Rule: "one case = one generated workflow with mixed CoresPerTask (1..max) and 1..6 slots under one schedule; the invariant 'sum of cores over tasks between command start and exit <= maxConcurrentTasks' is evaluated after EVERY simulator step (exact, not a lower bound). Some cases pre-place outputs so that skipped tasks interleave. Round 6: a second, smaller workflow with three one-core tasks counted against its own bound; FileSplitter feeding tasks that keep every slot busy. Round 7: background helpers that hold the output pipe count with their task; late outputs; custom log file. distinct = event-log hash; non-trivial = >=2 tasks executed and >=1 non-default choice",
 		Run: func(c *Case) Verdict {
 			var w *WF
 			switch c.Tape.Choose(simrt.StGen, 6, 0) {
@@ -281,7 +281,7 @@ func staggeredWF(c *Case) *WF {
 
 func init() {
 	Register(&Check{ID: "C07", Level: "exploration",
-		Rule: "three kinds of cases, tape-chosen: (a) barrier waves: groups of k tasks x c cores that fit the slots together, each command blocking until k commands of its group are inside the barrier - completion is possible only if they really run simultaneously, otherwise the simulator reports the deadlock (no time-outs); variants: a staggered rendezvous beyond the first wave, and a release wave (k one-core tasks become ready while a task holding k-1 of the k slots is known to execute; when it returns its slots at once all of them must be admitted); (b) mixed-core contention: generated workflows with cores 1..max competing token by token (every deposit and the mutex are scheduling points); (c) a process with CoresPerTask > max must be rejected: exit!=0, no hang, none of its commands executed. Round 5: Go-function tasks in the contention graphs; a Go-function task that runs a nested workflow while holding outer slots. Round 6: rendezvous groups of Go-function tasks. distinct = event-log hash; non-trivial = >=2 tasks executed (a,b) or the rejection (c), and >=1 non-default choice",
+		Rule: "three kinds of cases, tape-chosen: (a) barrier waves: groups of k tasks x c cores that fit the slots together, each command blocking until k commands of its group are inside the barrier - completion is possible only if they really run simultaneously, otherwise the simulator reports the deadlock (no time-outs); variants: a staggered rendezvous beyond the first wave, and a release wave (k one-core tasks become ready while a task holding k-1 of the k slots is known to execute; when it returns its slots at once all of them must be admitted); (b) mixed-core contention: generated workflows with cores 1..max competing token by token (every deposit and the mutex are scheduling points); (c) a process with CoresPerTask > max must be rejected: exit!=0, no hang, none of its commands executed. Round 5: Go-function tasks in the contention graphs; a Go-function task that runs a nested workflow while holding outer slots. Round 6: rendezvous groups of Go-function tasks. Round 7: (b) also as the re-run of a partly finished workflow; (a) the release wave is timed on an idle machine (late-admission). distinct = event-log hash; non-trivial = >=2 tasks executed (a,b) or the rejection (c), and >=1 non-default choice",
 		Run: func(c *Case) Verdict {
 			kind := c.Tape.Choose(simrt.StGen, 3, 0)
 			switch kind {
